@@ -8,11 +8,13 @@ const trusted = "Trusted base: go/types, go/ssa and the CHA/VTA call graphs of g
 func init() {
 	property(&Property{
 		ID:      "C07",
-		Rules:   []string{"ET-1", "ET-2", "ET-3", "SX-crash-json", "SX-crash-schema", "SX-crash-enum", "SX-crash-schema-deep"},
-		Explain: "Decides the structural clauses of C07 on the current tree: (ET) every errors.Format call site passes exactly as many arguments as its template has verbs, every ErrorCode used bare as an error value has a zero-verb template, every declared code has a template (the last sentence of the property, decided completely over all construction sites). (SX-crash) the transition relation of each of the three byte scanners is extracted from its Next() method by abstract interpretation of the SSA and explored breadth-first over every reachable abstract state (bounded stack depth / node cap) x all 256 byte values x end of input, following look-ahead reads with every possible following byte and with the input ending inside the look-ahead window: no transition may fail with anything but a positioned library error (no index out of range, no assertion panic, no unstructured error).",
+		Rules:   []string{"ET-1", "ET-2", "ET-3", "XF-H", "XF-1", "XF-2", "XF-3", "NR-1", "LB-const", "SX-crash-json", "SX-crash-schema", "SX-crash-enum", "SX-crash-schema-deep"},
+		Explain: "Decides the structural clauses of C07 on the current tree: (ET) every errors.Format call site passes exactly as many arguments as its template has verbs, every ErrorCode used bare as an error value has a zero-verb template, every declared code has a template (the last sentence of the property, decided completely over all construction sites). (SX-crash) the transition relation of each of the three byte scanners is extracted from its Next() method by abstract interpretation of the SSA and explored breadth-first over every reachable abstract state (bounded stack depth / node cap) x all 256 byte values x end of input, following look-ahead reads with every possible following byte and with the input ending inside the look-ahead window: no transition may fail with anything but a positioned library error (no index out of range, no assertion panic, no unstructured error). (XF) exception flow: the explicit panic sites of the library (classified by the static type of the value) and the implicit ones (slice/string index and slice expressions that no dominating length test or range loop guards, type assertions without ok, integer division) are propagated bottom-up over the call graph through the recover handlers, whose transfer functions (absorb / re-raise / convert to DocumentError) are derived by interpreting each handler's own code on one representative value per class; XF-1: no value escapes any exported function of the API packages, except reviewed invariant assertions and reviewed in-range arguments (one line of reason each); XF-2: the API-level handlers turn only positioned errors into returned errors; XF-3: no bare error code is returned as an error value on a path reachable from the API. NR-1: the possibly empty root node is nil-checked before use in every API-layer function. LB-const: every constant-index read of a slice/string is dominated by a length test or reviewed.",
 		Assume: []string{
 			"termination of the API calls is not decided",
-			"implicit run-time panics other than the modelled index reads (nil dereference, unchecked type assertions) are not decided",
+			"nil dereferences other than the root-node rule, map writes to nil maps and stack exhaustion are not modelled as panic sources",
+			"feasibility of the reviewed invariant assertions and in-range arguments is a reading of the pinned tree, not decided statically",
+			"the position of an error lying inside its source is decided only for scanner errors (C17 rules)",
 		},
 		Technique: "static analysis: AST+types rule over all error-construction sites (constant-resolved template arity)",
 		Level:     "Complete decision, over every call site of the current tree, of named structural necessary conditions of the property (error template/arity agreement). It does not decide the behavioural statement as a whole.",
@@ -62,11 +64,11 @@ func init() {
 	})
 	property(&Property{
 		ID:    "C17",
-		Rules: []string{"SX-pos-json", "SX-pos-schema", "SX-pos-enum"},
-		Explain: "Over the automata extracted from the three scanners: every rejecting transition (any byte in any reachable abstract state, and end of input) produces a DocumentError on which SetIndex was called and whose index is the offset of the byte just consumed (the last byte of the input when it ends early) — the position is symbolic in the model, so this holds for all inputs reaching the state.",
+		Rules: []string{"SX-pos-json", "SX-pos-schema", "SX-pos-enum", "LB-render"},
+		Explain: "Over the automata extracted from the three scanners: every rejecting transition (any byte in any reachable abstract state, and end of input) produces a DocumentError on which SetIndex was called and whose index is the offset of the byte just consumed (the last byte of the input when it ends early) — the position is symbolic in the model, so this holds for all inputs reaching the state. LB-render: the renderer stays inside the file content — preparation() brings a position outside the content back inside it, every renderer method that indexes the content first returns on empty content and calls preparation() (dominance), the line helpers are only called after it, and the count given to strings.Repeat is provably non-negative.",
 		Assume: []string{
 			"that the rejecting byte is the *first* byte that cannot continue the text follows from C05's language equivalence for JSON documents only",
-			"validator/loader error positions and the line/caret renderer are not covered by these rules",
+			"validator/loader error positions, and that the rendered line number / line text / caret column are the right ones (rather than merely safe to compute), are not covered by these rules",
 		},
 		Technique: "static analysis: scanner automaton extraction by abstract interpretation of go/ssa; symbolic error positions compared with the consumed byte on every rejecting transition",
 		Level:     "Typestate/position check on every rejecting transition of the extracted scanner automata (exhaustive over explored abstract states): a structural necessary condition of the first sentence of the property.",
